@@ -136,17 +136,17 @@ BInit(c) == /\ cfg = c /\ phase = "open" /\ last = [k |-> "new"]
                /\ skipped = s.skipped /\ sigBag = s.sigs
 
 \* one call; AddTentative (the choice of s) is internal to it
-AddWith(b, d, s, exit) ==
+AddAny(b, d, s) ==
   /\ phase = "open" /\ s \in TentativeSizes(cfg, St, b)
   /\ LET r == AddStep(cfg, St, b, d, s) IN
-     /\ r.exit = exit
      /\ SetSt(r.st)
-     /\ last' = [k |-> "add", added |-> r.added, done |-> r.done, exit |-> r.exit, b |-> b, d |-> d]
+     /\ last' = [k |-> "add", added |-> r.added, done |-> r.done, exit |-> r.exit]
   /\ UNCHANGED <<cfg, phase>>
-AddRejectFull(b, d, s)     == AddWith(b, d, s, "full")
-AddRejectDeclared(b, d, s) == AddWith(b, d, s, "declared")
-AddRejectAfter(b, d, s)    == AddWith(b, d, s, "after")
-AddAccept(b, d, s)         == AddWith(b, d, s, "accept")
+\* the four exits of add_spend_bundles as separate actions
+AddRejectFull(b, d, s)     == AddAny(b, d, s) /\ last'.exit = "full"
+AddRejectDeclared(b, d, s) == AddAny(b, d, s) /\ last'.exit = "declared"
+AddRejectAfter(b, d, s)    == AddAny(b, d, s) /\ last'.exit = "after"
+AddAccept(b, d, s)         == AddAny(b, d, s) /\ last'.exit = "accept"
 
 Finalize(exact) ==
   /\ phase = "open" /\ exact \in FinalSizes(cfg, St)
@@ -161,9 +161,10 @@ Finalize(exact) ==
 AllOrNothing ==
   [][(phase = "open" /\ phase' = "open") =>
        \/ /\ last'.added
-          /\ accepted' = Append(accepted, [b |-> last'.b, d |-> last'.d])
-          /\ blockCost' = blockCost + last'.d
-          /\ sigBag' = sigBag \o last'.b.sigs
+          /\ Len(accepted') = Len(accepted) + 1 /\ SubSeq(accepted', 1, Len(accepted)) = accepted
+          /\ LET x == accepted'[Len(accepted')] IN
+             /\ blockCost' = blockCost + x.d
+             /\ sigBag' = sigBag \o x.b.sigs
        \/ /\ ~last'.added
           /\ UNCHANGED <<accepted, blockCost, size, sigBag>>]_bvars
 \* the running estimate never underestimates what finalize() would return now.
